@@ -12,9 +12,10 @@
      denote / tden            meaning of a value / of a program in such a module
      prog G fenv t            t has no bare constant operand and its atoms are forms of dimension dim G
                               whose degree is within 0..dim G and matches the environment *)
-From Coq Require Import String List Bool Arith ZArith QArith.
+From Coq Require Import String List Bool Arith ZArith QArith Qcanon.
 From V Require Import Model.ExteriorM Proofs.ExteriorP.
 Import ListNotations.
+Close Scope Qc_scope. Close Scope Q_scope.
 Open Scope string_scope.
 
 (* ------------------------------------------------------------------ every arm preserves the meaning *)
@@ -110,7 +111,7 @@ Print Assumptions C19_deltadelta_syntactic_partial.
 
 Theorem C19_dd_syntactic_refuted :
   exists t, const_free t = true /\ eval (TD (TD t)) <> zero /\
-            eval (TD (TD t)) = Mul 2 [] (D (D (Form "u" 0 3))).
+            eval (TD (TD t)) = Mul 2%Q [] (D (D (Form "u" 0 3))).
 Proof. exact dd_syntactic_refuted. Qed.
 Print Assumptions C19_dd_syntactic_refuted.
 
@@ -201,7 +202,7 @@ Print Assumptions C19_hodge_hodge.
 
 Theorem C19_hodge_hodge_syntactic_atom : forall s k n,
   mk_hodge (mk_hodge (Form s k n)) =
-  if Nat.even (k * (n - k)) then Form s k n else Mul (-1 # 1) [] (Form s k n).
+  if Nat.even (k * (n - k)) then Form s k n else Mul (-1 # 1)%Q [] (Form s k n).
 Proof. exact hodge_hodge_atom. Qed.
 Print Assumptions C19_hodge_hodge_syntactic_atom.
 
@@ -265,7 +266,7 @@ Proof. exact infer_Mul_none. Qed.
 Print Assumptions C19_infer_mul_none.
 
 Theorem C19_infer_sum_same_refuted :
-  let e := Add [Form "u" 1 3; Mul 2 [] (Form "v" 1 3)] in
+  let e := Add [Form "u" 1 3; Mul 2%Q [] (Form "v" 1 3)] in
   infer e = IErrValue /\
   forall G (HL : laws G) cenv fenv, wfe G fenv e -> deg G (denote G cenv fenv e) 1.
 Proof. exact infer_sum_same_refuted. Qed.
@@ -281,15 +282,15 @@ Print Assumptions C19_laws_nonvacuous.
 
 (* a concrete program in that model: u = e1 (a 1-form), f a 0-form with d f = e1 *)
 Definition fenv2 : string -> M G2.G :=
-  fun s => if String.eqb s "u" then G2.mk6 0 0 1 0 0 0
-           else if String.eqb s "f" then G2.mk6 0 1 0 0 0 0 else G2.z6.
+  fun s => if String.eqb s "u" then (G2.mk6 0 0 1 0 0 0)%Qc
+           else if String.eqb s "f" then (G2.mk6 0 1 0 0 0 0)%Qc else G2.z6.
 Definition prog2 : tree :=
-  TSum [THodge (THodge (TForm "u" 1 2)); TScale (CNum (3 # 1)) (TD (TForm "f" 0 2))].
+  TSum [THodge (THodge (TForm "u" 1 2)); TScale (CNum (3 # 1)%Q) (TD (TForm "f" 0 2))].
 
 Example C19_prog_nonvacuous :
   prog G2.G fenv2 prog2 /\ tdeg 2 prog2 = Some 1 /\
-  eval prog2 = Add [Mul (-1 # 1) [] (Form "u" 1 2); Mul (3 # 1) [] (D (Form "f" 0 2))] /\
-  denote G2.G cenv1 fenv2 (eval prog2) = G2.mk6 0 0 (Q2Qc (2 # 1)) 0 0 0.
+  eval prog2 = Add [Mul (-1 # 1)%Q [] (Form "u" 1 2); Mul (3 # 1)%Q [] (D (Form "f" 0 2))] /\
+  denote G2.G cenv1 fenv2 (eval prog2) = (G2.mk6 0 0 (Q2Qc (2 # 1)%Q) 0 0 0)%Qc.
 Proof.
   split.
   - split; [|reflexivity]. intros a Ha. cbn in Ha.
@@ -301,7 +302,7 @@ Qed.
 Example C19_hodge_sign_sweep :
   forallb (fun n => forallb (fun k =>
       eqv true (eval (THodge (THodge (TForm "w" k n))))
-               (if Nat.even (k * (n - k)) then Form "w" k n else Mul (-1 # 1) [] (Form "w" k n))
+               (if Nat.even (k * (n - k)) then Form "w" k n else Mul (-1 # 1)%Q [] (Form "w" k n))
       && ires_eqb (infer (eval (THodge (TForm "w" k n)))) (IOk (n - k))
       && eqv true (eval (TD (TD (TForm "w" k n)))) zero
       && eqv true (eval (TDelta (TDelta (TForm "w" k n)))) zero)
